@@ -240,6 +240,8 @@ func c12hashes(env *zygo.Zlisp) []zygo.Sexp {
 		mk(str("k 1"), &zygo.SexpFloat{Val: 2.5}, str("b"), zygo.SexpNull), mk(env.MakeSymbol("a"), env.NewSexpArray([]zygo.Sexp{in(1), str("s"), &zygo.SexpBool{Val: true}})),
 		mk(env.MakeSymbol("a"), mk(env.MakeSymbol("b"), mk(str("c"), in(3)))), mk(str("q\"uote"), str("v\\")), mk(str("é"), str("😀")),
 		env.NewSexpArray([]zygo.Sexp{mk(env.MakeSymbol("a"), in(1)), mk(str("b"), in(2))}), mk(env.MakeSymbol("f"), &zygo.SexpFloat{Val: 1e21}, env.MakeSymbol("g"), &zygo.SexpFloat{Val: 0.1}),
+		// text that would mean something to a formatter
+		mk(env.MakeSymbol("a"), str("100%% sure"), env.MakeSymbol("b"), env.NewSexpArray([]zygo.Sexp{in(1), str("x%dy")}), env.MakeSymbol("c"), in(2)), mk(str("%s"), str("%!v(MISSING)"), str("50%"), str("%%")),
 	}
 	return hashes
 }
@@ -255,6 +257,20 @@ func wantInt(v int64) func(zygo.Sexp) (bool, string) {
 	return func(g zygo.Sexp) (bool, string) {
 		x, ok := g.(*zygo.SexpInt)
 		return ok && x.Val == v, fmt.Sprintf("int64 %d", v)
+	}
+}
+// wantTooBig: a literal without the ULL suffix whose value does not fit int64. It may be rejected; if it is accepted it
+// must denote that value (as uint64 or as an exactly equal float), never some other integer.
+func wantTooBig(v uint64) func(zygo.Sexp) (bool, string) {
+	return func(g zygo.Sexp) (bool, string) {
+		desc := fmt.Sprintf("too large for int64 (%d): rejected, or exactly that value", v)
+		switch x := g.(type) {
+		case *zygo.SexpUint64:
+			return x.Val == v, desc
+		case *zygo.SexpFloat:
+			return x.Val == float64(v) && uint64(x.Val) == v, desc
+		}
+		return false, desc
 	}
 }
 func wantUint(v uint64) func(zygo.Sexp) (bool, string) {
@@ -301,6 +317,12 @@ func c12literals(thorough bool) []c12lit {
 		ls = append(ls, c12lit{"0x" + h + "ULL", wantUint(u)})
 	}
 	ls = append(ls, c12lit{"0xffffffffffffffffULL", wantUint(math.MaxUint64)})
+	// one past the largest int64, and the largest uint64, in every radix, without the ULL suffix
+	for _, v := range []uint64{1 << 63, 1<<63 + 1, math.MaxUint64} {
+		ls = append(ls, c12lit{"0x" + strconv.FormatUint(v, 16), wantTooBig(v)}, c12lit{"0x" + strings.ToUpper(strconv.FormatUint(v, 16)), wantTooBig(v)},
+			c12lit{"0o" + strconv.FormatUint(v, 8), wantTooBig(v)}, c12lit{"0b" + strconv.FormatUint(v, 2), wantTooBig(v)}, c12lit{strconv.FormatUint(v, 10), wantTooBig(v)})
+	}
+	ls = append(ls, c12lit{"0o777777777777777777777", wantInt(math.MaxInt64)}, c12lit{"0b" + strings.Repeat("1", 63), wantInt(math.MaxInt64)})
 	for _, o := range []string{"0", "7", "17", "777", "1234567"} {
 		v, _ := strconv.ParseInt(o, 8, 64)
 		ls = append(ls, c12lit{"0o" + o, wantInt(v)}, c12lit{"0o" + o + "ULL", wantUint(uint64(v))})
@@ -386,6 +408,9 @@ func c12literal(c *engine.Ctx, env *zygo.Zlisp, l c12lit) {
 			viol("literal-panic", r.Panic)
 			return
 		}
+		if !r.OK() && strings.HasPrefix(desc, "too large") {
+			continue
+		}
 		if !r.OK() {
 			viol("literal-rejected", fmt.Sprintf("literal %s is rejected: %s; it denotes %s", l.text, r, desc))
 			return
@@ -431,6 +456,20 @@ func c12files(c *engine.Ctx, env *zygo.Zlisp, only string) {
 				viol("source-fails", fmt.Sprintf("after (owritef %s f) then (owritef %s f), (source f) fails: %s", clipS(big.SexpString(nil), 80), clipS(small.SexpString(nil), 80), r))
 			case !equalData(small, r.Sexp):
 				viol("source-differs", fmt.Sprintf("(owritef %s f) then (source f) gives %s", clipS(small.SexpString(nil), 80), clipS(r.Val, 80)))
+			}
+			// the same datum through save (which refuses to overwrite: the file is removed first)
+			if i == j {
+				os.Remove(path)
+				sv := zy.Eval(env, `(save fsmall fpath)`)
+				r2 := zy.Eval(env, `(source fpath)`)
+				switch {
+				case sv.Panic != "" || r2.Panic != "":
+					viol("print-panic", sv.Panic+r2.Panic)
+				case sv.OK() && !r2.OK():
+					viol("source-fails", fmt.Sprintf("after (save %s f), (source f) fails: %s", clipS(small.SexpString(nil), 80), r2))
+				case sv.OK() && !equalData(small, r2.Sexp):
+					viol("source-differs", fmt.Sprintf("(save %s f) then (source f) gives %s", clipS(small.SexpString(nil), 80), clipS(r2.Val, 80)))
+				}
 			}
 			c.Outcome(w)
 		}
